@@ -358,8 +358,88 @@ func (g *gen) fuzzNum() string {
 	return g.r.str("0", "1", "-1", "2", "99999999999999999999", "-99999999999999999999", "abc", "", "1e3", "0x10", " 1", "1.5", "2147483648", "9223372036854775807", "-9223372036854775808", strings.Repeat("9", 400))
 }
 
+// fuzzLive aims adversarial requests at a session that is open right now: "{loc}" in the path is replaced at run time by
+// the Location of the latest 202 the server gave for an upload (path and state), the text after it is the path used when
+// no session was opened yet. Bodies and digests are those of real blobs, consistent or not with what the session was
+// opened for, with ranges, lengths and state tokens at and beyond their bounds.
+func (g *gen) fuzzLive() Op {
+	r := g.r
+	repo := g.p.Repos[r.intn(len(g.p.Repos))]
+	blob := func() *Obj {
+		return g.p.Objs[g.anyObj(func(o *Obj) bool { return o.Kind == "blob" && len(o.data) > 0 })]
+	}
+	rq := &RawReq{Hdr: map[string][]string{}}
+	var q []string
+	if r.chance(30) {
+		rq.Method, rq.Path = "POST", "/v2/"+repo+"/blobs/uploads/"
+		switch r.intn(5) {
+		case 0:
+			q = append(q, "mount="+blob().digest("sha256"))
+		case 1:
+			q = append(q, "mount="+blob().digest("sha256"), "from="+r.str("nosuch", repo, "a", "a/b"))
+		case 2:
+			q = append(q, "digest-algorithm="+r.str("sha256", "sha512"))
+		case 3:
+			b := blob()
+			q = append(q, "digest="+b.digest(r.str("sha256", "sha512")))
+			rq.Body = append([]byte{}, b.data...)
+		}
+		rq.Query = strings.Join(q, "&")
+		return Op{K: "raw", Raw: rq}
+	}
+	rq.Method = r.str("PATCH", "PATCH", "PATCH", "PUT", "PUT", "PUT", "PUT", "GET", "DELETE", "POST", "HEAD")
+	rq.Path = r.str("{loc}", "{loc}", "{loc}", "{loc-nostate}") + "/v2/" + repo + "/blobs/uploads/nosuchsession"
+	b := blob()
+	switch r.intn(6) {
+	case 0, 1, 2:
+		rq.Body = append([]byte{}, b.data...)
+	case 3:
+		rq.Body = append([]byte{}, b.data[:len(b.data)/2]...)
+	case 4:
+		rq.Body = []byte(strings.Repeat("\xff\x00z", r.between(1, 200)))
+	}
+	switch r.intn(8) {
+	case 0, 1, 2:
+		q = append(q, "digest="+b.digest(r.str("sha256", "sha256", "sha512")))
+	case 3, 4:
+		q = append(q, "digest="+blob().digest("sha256"))
+	case 5:
+		q = append(q, "digest="+g.fuzzDigest())
+	case 6:
+		q = append(q, "digest="+b.digest("sha256"), "digest="+blob().digest("sha256"))
+	}
+	if r.chance(15) {
+		q = append(q, "state="+r.str("", "e30", "eyJvZmZzZXQiOjB9", "eyJvZmZzZXQiOi0xfQ", "eyJvZmZzZXQiOjF9", "!!!", "bnVsbA", "eyJvZmZzZXQiOiJhIn0"))
+	}
+	if r.chance(35) {
+		n := len(rq.Body)
+		rq.Hdr["Content-Range"] = []string{r.str(fmt.Sprintf("0-%d", n-1), fmt.Sprintf("0-%d", n-1), fmt.Sprintf("0-%d", n), fmt.Sprintf("1-%d", n), fmt.Sprintf("%d-%d", n, 2*n-1), "0-0", "5-", "-", "a-b", "99999999999999999999-1", "0-99999999999999999999", "1-0", "", "bytes 0-1/2")}
+	}
+	if r.chance(15) {
+		rq.Hdr["Content-Type"] = []string{r.str("application/octet-stream", "", "text/plain", ";")}
+	}
+	if r.chance(10) {
+		rq.Hdr["Content-Length"] = []string{g.fuzzNum()}
+	}
+	switch r.intn(10) {
+	case 0:
+		rq.CL = -1
+	case 1:
+		rq.CL = int64(len(rq.Body)) + 10
+	case 2:
+		if len(rq.Body) > 2 {
+			rq.CL = int64(len(rq.Body)) - 1
+		}
+	}
+	rq.Query = strings.Join(q, "&")
+	return Op{K: "raw", Raw: rq}
+}
+
 func (g *gen) fuzzRaw() Op {
 	r := g.r
+	if len(g.p.Repos) > 0 && r.chance(18) {
+		return g.fuzzLive()
+	}
 	rq := &RawReq{Method: r.str("GET", "GET", "HEAD", "PUT", "POST", "PATCH", "DELETE", "OPTIONS", "FOO", "TRACE", "CONNECT")}
 	repo := fuzzRepos[r.intn(len(fuzzRepos))]
 	if r.chance(55) && len(g.p.Repos) > 0 {
